@@ -341,6 +341,13 @@ def float_stage(run, fam, least=1000):
         raise ToolingError("MC_Float %s produced only %d cases: vacuous" % (fam, st["cases"]))
 
 
+def float_flowB(run, n, stage="float-flowB", seed_offset=0):
+    """recorded-trace direction over the exact binary64 model: seeded random numerals of 1-20 integer and 0-20 fraction
+    digits, arithmetic / comparison / string() / substring() trees of depth <= 3, run on the engine, validated by TLC"""
+    tr = run.drive("f64", n, seed_offset=seed_offset)
+    run.validate_batch(tr, stage, module="XFBatch", skip_ok=True, invariants=("Validate", "Sanity"))
+
+
 def run_C07(run):
     q = run.tier == "quick"
     run.gen_and_replay("MC_Expr", consts(VAL_EXPR, Family="C07cmp"), name="cmp-matrix", kind="eval")
@@ -353,6 +360,7 @@ def run_C07(run):
     # 19- and 20-digit integers); the reply is compared bit for bit
     float_stage(run, "cmp")
     float_stage(run, "pred")      # the same comparisons as predicates of /r/*[...] (Select)
+    float_flowB(run, 4000 if q else 40000, seed_offset=7)
 
 
 def run_C08(run):
@@ -369,6 +377,7 @@ def run_C08(run):
     # the edges of the binary64 range (309-digit literals, subnormals written with 324 fraction digits): overflow to
     # infinity, gradual underflow, the largest double and its neighbours
     float_stage(run, "extremeq" if q else "extreme", least=40)
+    float_flowB(run, 6000 if q else 60000)
 
 
 def run_C09(run):
@@ -380,6 +389,7 @@ def run_C09(run):
     # exact binary64 model (XFloat.tla): substring() with start/length that are halves, inexact sums, NaN, infinities and
     # magnitudes beyond 2^63 (round() computed on the exact value), string-length()/concat() over string() of inexact numbers
     float_stage(run, "substr")
+    float_flowB(run, 4000 if q else 40000, seed_offset=11)
 
 
 def run_C04(run):
